@@ -18,7 +18,7 @@ var Schemas = []string{
 type Query { a: Int  s: String  o(x: Int, d: Int! = 1, l: [Int!], in: In, e: E, c: Custom, one: One, id: ID, fl: Float, b: Boolean, st: String, nn: [Int]! = [1]): Obj  q(r: Int!, x: Int): Obj  i: Iface  u: Un  list: [Obj!]! }
 type Mutation { m: Int }
 type Subscription { a: Int  b: Int  o: Obj }
-type Obj implements Iface { a: Int  id: ID!  o: Obj  s: String  x(k: Int, l: [Int], in: In): String  n: Int! }
+type Obj implements Iface { a: Int  b: Int  id: ID!  o: Obj  s: String  x(k: Int, l: [Int], in: In): String  n: Int! }
 type Obj2 implements Iface { a: String  id: ID!  o: Obj  s: String!  x(k: Int, l: [Int], in: In): String n: Int }
 interface Iface { id: ID!  o: Obj }
 union Un = Obj | Obj2
@@ -522,5 +522,61 @@ var Shapes = []func(b *B){
 		b.ns("fragment", "A", "on")
 		b.pick("Obj", "Obj3", "In2", "Missing")
 		b.braces(func() { b.pick("id", "ic") })
+	},
+	// 11: the same two named fragments meet twice - under mutually exclusive object
+	// parents (different fields behind one alias are fine there if the types agree) and
+	// side by side (where they are not) - in either order, or only one of the two
+	func(b *B) {
+		exclusive := func() {
+			b.n("i")
+			b.braces(func() {
+				b.p(hparse.KSpread)
+				b.ns("on", "Obj")
+				b.braces(func() {
+					b.n("o")
+					b.braces(func() { b.p(hparse.KSpread); b.n("FA") })
+				})
+				b.p(hparse.KSpread)
+				b.ns("on", "Obj2")
+				b.braces(func() {
+					b.n("o")
+					b.braces(func() { b.p(hparse.KSpread); b.n("FB") })
+				})
+			})
+		}
+		together := func() {
+			b.n("o")
+			b.braces(func() {
+				b.n("o")
+				b.braces(func() {
+					b.p(hparse.KSpread)
+					b.n("FA")
+					b.p(hparse.KSpread)
+					b.n("FB")
+				})
+			})
+		}
+		b.braces(func() {
+			switch b.altN("order", 4) {
+			case 0:
+				exclusive()
+				together()
+			case 1:
+				together()
+				exclusive()
+			case 2:
+				exclusive()
+			case 3:
+				together()
+			}
+		})
+		for _, f := range []string{"FA", "FB"} {
+			b.ns("fragment", f, "on", "Obj")
+			b.braces(func() {
+				b.pick("p", "q")
+				b.p(hparse.KColon)
+				b.pick("a", "b", "s")
+			})
+		}
 	},
 }
